@@ -51,6 +51,8 @@ def add_data_vars(w: dict, rng: random.Random, *, rich: bool = True, late: bool 
     gg = list(g) if rng.random() < .5 else list(reversed(g))
     add("plotv", "face", gg, "f8", 0.2)
     add("pu", "face", list(g), "f8")
+    add("fort", "face", ["k"] + list(g), "f8")       # held in Fortran-ordered memory (as after a transpose, or read by scipy.io)
+    specs[-1]["forder"] = True
     if packed:
         # a variable stored packed on disk (int16, scale / offset) whose fill value is ZERO - a legitimate choice
         add("packed", "face", ["t"] + list(g), "f8", 0.2)
